@@ -310,3 +310,29 @@ package oauth2
 //@   requires h != nil && r != nil && h.HMACSHAStrategyUnPrefixed != nil
 //@   ensures [C07.refresh-token-expiry] err == nil && r.GetSession().GetExpiresAt(fosite.RefreshToken) != 0 ==> $now >= old($now) && !(r.GetSession().GetExpiresAt(fosite.RefreshToken) < $now)
 //@   ensures [C06.refresh-token-authentic] err == nil ==> authentic(h.HMACSHAStrategyUnPrefixed.Enigma, strings.TrimPrefix(token, h.getPrefix("rt")))
+
+// ---------------------------------------------------------------- C08: revocation
+
+//@ func storeErrorsToRevocationError
+//@   ensures [C08.error-mapping] err == nil <==> ((err1 == nil || eis(err1, fosite.ErrNotFound) || eis(err1, fosite.ErrInactiveToken)) && (err2 == nil || eis(err2, fosite.ErrNotFound) || eis(err2, fosite.ErrInactiveToken)))
+//@   ensures [C08.error-mapping] err != nil ==> ekind(err) == "temporarily_unavailable"
+
+//@ func (*TokenRevocationHandler).RevokeToken
+//@   let rsig = r.RefreshTokenStrategy.RefreshTokenSignature(ctx, token)
+//@   let asig = r.AccessTokenStrategy.AccessTokenSignature(ctx, token)
+//@   let foundref = old(ref_exists[rsig]) && old(ref_active[rsig])
+//@   let foundacc = old(acc_exists[asig])
+//@   let accfirst = tokenType == fosite.AccessToken
+//@   let hit_ref = foundref && (!accfirst || !foundacc)
+//@   let hit_acc = foundacc && (accfirst || !foundref)
+//@   let rid = hit_ref ? old(ref_rid[rsig]) : old(acc_rid[asig])
+//@   let owner = hit_ref ? old(ref_client[rsig]) : old(acc_client[asig])
+//@   requires r != nil && client != nil
+//@   modifies acc_exists, ref_active, faults
+//@   ensures [C08.owner-only] faults == old(faults) && (hit_ref || hit_acc) && owner != client.GetID() ==> err != nil && ekind(err) == "unauthorized_client" && acc_exists == old(acc_exists) && ref_active == old(ref_active)
+//@   ensures [C08.revokes-family] faults == old(faults) && (hit_ref || hit_acc) && owner == client.GetID() ==> err == nil && (forall s string :: acc_exists[s] ==> acc_rid[s] != rid) && (forall s string :: ref_exists[s] && ref_rid[s] == rid ==> !ref_active[s])
+//@   ensures [C08.revoke-touches-only-family] faults == old(faults) && (hit_ref || hit_acc) ==> (forall s string :: acc_rid[s] != rid ==> acc_exists[s] == old(acc_exists[s])) && (forall s string :: ref_rid[s] != rid ==> ref_active[s] == old(ref_active[s]))
+//@   ensures [C08.unknown-is-success] faults == old(faults) && !foundref && !foundacc ==> err == nil && acc_exists == old(acc_exists) && ref_active == old(ref_active)
+//@   ensures [C08.not-found-changes-nothing] !foundref && !foundacc ==> acc_exists == old(acc_exists) && ref_active == old(ref_active)
+//@   ensures [C08.revoke-issues-nothing] (forall s string :: acc_exists[s] ==> old(acc_exists[s])) && (forall s string :: ref_active[s] ==> old(ref_active[s]))
+//@   ensures [C08.error-class] err != nil ==> ekind(err) == "unauthorized_client" || ekind(err) == "temporarily_unavailable"
